@@ -55,6 +55,8 @@ class Engine(ExprMixin, CallMixin, StmtMixin):
         self.callees = set()
         self.used_lemmas = set()
         self.mutated_names = set()
+        self.rebound_params = set()
+        self.hint_no = 0
         self.path_limit = 400
         self._modconst_cache = {}
 
@@ -104,6 +106,13 @@ class Engine(ExprMixin, CallMixin, StmtMixin):
         loops = [n for n in nodes if isinstance(n, (ast.For, ast.While))]
         self.loop_index = {id(n): i for i, n in enumerate(loops)}
         self.mutated_names = set()
+        params = {a.arg for a in fdef.args.args}
+        self.rebound_params = set()
+        for n in ast.walk(fdef):
+            if isinstance(n, ast.Assign):
+                for t in n.targets:
+                    if isinstance(t, ast.Name) and t.id in params:
+                        self.rebound_params.add(t.id)
         for n in ast.walk(fdef):
             tgt = None
             if isinstance(n, ast.Call) and isinstance(n.func, ast.Attribute) and n.func.attr in MUTATORS:
@@ -128,7 +137,10 @@ class Engine(ExprMixin, CallMixin, StmtMixin):
         (the parameter is a constant in each run) and the obligations are pooled."""
         cases = getattr(c, "cases", None)
         if not cases:
-            return self.generate1(c, extra_ensures, drop_ensures, {})
+            r = self.generate1(c, extra_ensures, drop_ensures, {})
+            for ob in self.obligations:
+                ob.reveal = tuple(c.reveal)
+            return r
         import itertools
         names = sorted(cases)
         allobs = []
@@ -143,6 +155,8 @@ class Engine(ExprMixin, CallMixin, StmtMixin):
                 a |= b
         self.obligations = allobs
         self.assumptions, self.trusted_axioms, self.callees, self.used_lemmas = acc
+        for ob in self.obligations:
+            ob.reveal = tuple(c.reveal)
         return tot, fdef, text
 
     def generate1(self, c, extra_ensures, drop_ensures, pin):
@@ -243,6 +257,13 @@ class Engine(ExprMixin, CallMixin, StmtMixin):
             # caller's ints/tuples cannot be changed by the callee); mutable ones denote the object's final state
             post_env = {p: v for p, v in entry.vars.items()
                         if not isinstance(v, (VList, VDict, VSet, VRec)) and p not in c.ghost}
+            # a parameter name that the body re-binds (x = ...) no longer denotes the caller's object: ensures see the
+            # caller's object, which is unchanged unless the body also mutates it in place (not supported together)
+            for p in self.rebound_params:
+                if p in entry.vars and p not in post_env and p not in c.ghost:
+                    if p in self.mutated_names:
+                        raise Unsupported("parameter %s is both re-bound and mutated in place" % p)
+                    post_env[p] = entry.vars[p]
             post_env["result"] = res
             for h in c.hints.get("exit", []):
                 self.assume_hint(s2, h, post_env)
@@ -340,8 +361,8 @@ def solve(ob, timeout_ms):
     s.set("timeout", max(1000, timeout_ms // 3))
     s.set("auto_config", False)
     s.set("smt.mbqi", False)
-    from .calls import SPEC_AXIOMS
-    axioms = list(SPEC_AXIOMS.values())
+    from .calls import SPEC_AXIOMS, OPAQUE_AXIOMS
+    axioms = list(SPEC_AXIOMS.values()) + [OPAQUE_AXIOMS[n] for n in getattr(ob, "reveal", ()) if n in OPAQUE_AXIOMS]
     s.add(*axioms)
     s.add(*ob.assumptions)
     s.add(z3.Not(ob.goal))
@@ -368,9 +389,10 @@ def solve(ob, timeout_ms):
 
 
 def smt2_of(ob):
-    from .calls import SPEC_AXIOMS
+    from .calls import SPEC_AXIOMS, OPAQUE_AXIOMS
     s = z3.Solver()
     s.add(*SPEC_AXIOMS.values())
+    s.add(*[OPAQUE_AXIOMS[n] for n in getattr(ob, "reveal", ()) if n in OPAQUE_AXIOMS])
     s.add(*ob.assumptions)
     s.add(z3.Not(ob.goal))
     return s.to_smt2()
